@@ -34,7 +34,7 @@ def plan(tier, seed):
 
 def thresholds(tier):
   t = {"design_backend_pairs": 100, "texts_compared": 300, "module_tables_checked": 100, "standalone_bodies_compared": 200,
-       "parameterisations": 300, "hashed_module_names": 20, "full_names_checked": 150, "instance_statements_checked": 120, "multi_unit_texts_compared": 100, "duplicate_module_probes": 6, "retranslations_compared": 8, "struct_name_probes": 20, "struct_name_probe_controls_translated": 2, "duplicate_module_probe_controls_clean": 3, "reserved_word_probes": 1500, "reserved_word_probe_controls_translated": 100}
+       "parameterisations": 300, "hashed_module_names": 20, "full_names_checked": 150, "instance_statements_checked": 120, "multi_unit_texts_compared": 100, "duplicate_module_probes": 6, "retranslations_compared": 8, "struct_name_probes": 20, "struct_name_probe_controls_translated": 2, "explicit_file_name_probes": 12, "explicit_file_name_probe_controls_clean": 2, "duplicate_module_probe_controls_clean": 3, "reserved_word_probes": 1500, "reserved_word_probe_controls_translated": 100}
   if tier == "thorough":
     t = {k: v * 8 for k, v in t.items()}
     t["multi_unit_texts_compared"] = 100; t["duplicate_module_probes"] = 6; t["retranslations_compared"] = 8; t["struct_name_probes"] = 20; t["struct_name_probe_controls_translated"] = 2; t["duplicate_module_probe_controls_clean"] = 3; t["reserved_word_probes"] = 1500; t["reserved_word_probe_controls_translated"] = 100       # same size in both tiers
@@ -668,6 +668,44 @@ def run_structname_probe(sh):
         if nm == "Plain": sh.count("struct_name_probe_controls_translated")
 
 
+def run_filename_probe(sh):
+  """two translation units given explicit file names that differ only behind a '.v' inside the name ( 'U.v1.v' / 'U.v2.v',
+  'my.vec.v' / 'my.vat.v', a directory 'out.v2/' ): after both translations the file each unit REPORTS defines that unit's top
+  module ( F-N14: everything behind the first '.v' was cut off, the second text overwrote the first )"""
+  from pymtl3 import Component, InPort, OutPort, update
+  from pymtl3.passes.backends.verilog import VerilogTranslationPass as PV
+  from pymtl3.passes.backends.yosys import YosysTranslationPass as PY
+  import tempfile
+  d = tempfile.mkdtemp(prefix="fname_", dir=os.environ.get("VERIF_SCRATCH") or None)
+  os.makedirs(os.path.join(d, "out.v2"), exist_ok=True)
+  class FNStage(Component):
+    def construct(s, inc):
+      s.i = InPort(8); s.o = OutPort(8)
+      @update
+      def up(): s.o @= s.i + inc
+  pairs = [("U.v1.v", "U.v2.v"), ("my.vec.v", "my.vat.v"), ("out.v2/A.v", "out.v2/B.v"), ("plain_a.v", "plain_b.v"), ("noext_a", "noext_b"),
+           ("S.sv1.sv", "S.sv2.sv")]
+  for P in (PV, PY):
+    for a, b in pairs:
+      res = []
+      for inc, fn in ((1, a), (2, b)):
+        m = FNStage(inc); m.elaborate()
+        m.set_metadata(P.enable, True); m.set_metadata(P.explicit_file_name, os.path.join(d, fn))
+        m.apply(P())
+        res.append((m.get_metadata(P.translated_filename), m.get_metadata(P.translated_top_module)))
+      sh.count("explicit_file_name_probes")
+      for fn, mod in res:
+        try: text = open(fn).read()
+        except OSError: text = ""
+        if not re.search(r"^\s*module\s+" + re.escape(mod) + r"\b", text, re.M):
+          sh.violation("illegal-or-clashing-identifier-or-module-table-error", {"what": "the file a translation unit reports does not define its top module",
+                       "explicit_file_names": [a, b], "reported": [os.path.basename(r[0]) for r in res], "missing_module": mod, "pass": P.__name__},
+                       case=("filename", P.__name__, a)); break
+      else:
+        if a.startswith("plain"): sh.count("explicit_file_name_probe_controls_clean")
+  import shutil; shutil.rmtree(d, ignore_errors=True)
+
+
 def run_keyword_probe(sh):
   """identifiers are legal: a signal / block / loop variable named like a reserved word of IEEE 1800-2017 (list written down from
   Annex B in vlib/svkeywords.py, not taken from pymtl3's table) is either refused by the translator or renamed - it never reaches
@@ -722,6 +760,7 @@ def run_shard(sh):
   if sh.params["part"] == 2: run_dupmodule_probes(sh)
   if sh.params["part"] == 3: run_retranslate_probe(sh)
   if sh.params["part"] == 4: run_structname_probe(sh)
+  if sh.params["part"] == 6: run_filename_probe(sh)
   run_keyword_probe(sh)
   rng = sh.rng("c13")
   items = []
